@@ -43,6 +43,11 @@ def printCpu (d : CpuDoc) : Str :=
   words d.big d.w64 ([0, 3, 0, d.period, 0] ++ d.recs.flatMap CpuRec.words ++ (if d.eod then [0, 1, 0] else [])) ++
     (if d.eod then (match d.map with | none => [] | some m => unlines m.bodyLines) else [])
 
+/-- the same document with freely chosen line terminators in the memory map (`renderLines`) -/
+def printCpuWith (cs : List Bool) (noFinal : Bool) (d : CpuDoc) : Str :=
+  words d.big d.w64 ([0, 3, 0, d.period, 0] ++ d.recs.flatMap CpuRec.words ++ (if d.eod then [0, 1, 0] else [])) ++
+    (if d.eod then (match d.map with | none => [] | some m => renderLines cs noFinal m.bodyLines) else [])
+
 def CpuDoc.wordBound (d : CpuDoc) : Nat := if d.w64 then two64 else two32
 
 def CpuDoc.wf (d : CpuDoc) : Bool :=
